@@ -163,14 +163,14 @@ var quirkList = []struct {
 	name string
 }{
 	// open findings first: a disagreement that an open deviation explains is attributed to it
-	{refscript.QuirkFixedOffsetDER, "ecdsa-der-fixed-offset-parser"},
-	{refscript.QuirkDiscourageUnflaggedLockOps, "cltv-csv-without-flag-discouraged-as-nop"},
-	{refscript.QuirkLowSPlainComparison, "low-s-plain-comparison-of-out-of-range-s"},
+	{refscript.QuirkFixedOffsetDER, "der-fixed-offset-parser"},
+	{refscript.QuirkDiscourageUnflaggedLockOps, "unflagged-cltv-csv-discouraged"},
+	{refscript.QuirkLowSPlainComparison, "low-s-out-of-range-s"},
 	// repaired in /repo (a0b65a9d, 8bdd00bb): kept so that a regression gets a precise name; these
 	// classes are NOT listed as known findings, a reappearance is a VIOLATION
-	{refscript.QuirkTaprootZeroDigest, "taproot-no-digest-treated-as-zero-digest"},
-	{refscript.QuirkFindAndDeleteCompactSize, "findanddelete-compactsize-pattern"},
-	{refscript.QuirkFindAndDeleteCompactSize | refscript.QuirkFixedOffsetDER, "findanddelete-compactsize-pattern+ecdsa-der-fixed-offset-parser"},
+	{refscript.QuirkTaprootZeroDigest, "taproot-zero-digest"},
+	{refscript.QuirkFindAndDeleteCompactSize, "fad-compactsize"},
+	{refscript.QuirkFindAndDeleteCompactSize | refscript.QuirkFixedOffsetDER, "fad-compactsize+der-fixed-offset-parser"},
 }
 
 // classOf names a disagreement: direction + the reference's reason + (a known deviation that
@@ -526,7 +526,7 @@ func main() {
 	if _, err := os.Stat(mainBin); err != nil {
 		mainBin, _ = os.Executable()
 	}
-	nSpends := run.N(7600, 750000)
+	nSpends := run.N(15000, 750000)
 	if v, err := strconv.Atoi(os.Getenv("VERIF_C01_SPENDS")); err == nil && v > 0 {
 		nSpends = v // development aid only (sensitivity runs); evidence records the number of cases actually run
 	}
@@ -670,13 +670,13 @@ func main() {
 	if n := run.DistinctN("ref_error_codes"); n < 50 && run.Violations() == 0 {
 		run.Inconclusive("only %d distinct reference error codes reached (want >= 50 of %d)", n, int(refscript.ErrCount))
 	}
-	if run.Get("verdict/ref=accept,gocoin=accept") < int64(run.N(5000, 400000)) {
+	if run.Get("verdict/ref=accept,gocoin=accept") < int64(run.N(10000, 400000)) {
 		run.Inconclusive("too few accepted cases: %d", run.Get("verdict/ref=accept,gocoin=accept"))
 	}
 	run.Assume("verdict equality is judged against refscript, an independent port of Bitcoin Core's interpreter semantics calibrated on the shipped vector files; two implementations agreeing is evidence, not proof")
 	run.Assume("flag sets are closed under CLEANSTACK=>P2SH+WITNESS, WITNESS=>P2SH (Core asserts; gocoin panics by design) and TAPROOT=>WITNESS")
 	run.Assume("taproot layers of the reference are calibrated by BIP340 vectors, BIP341 wallet vectors recalled from memory (accepted only on exact 256-bit matches) and hand-derived cases; bip341_script_tests.json is empty in this tree")
-	minTriples := run.N(15000, 1000000)
+	minTriples := run.N(25000, 800000)
 	run.Finish("each case = one (scriptSig, scriptPubKey, witness, amount, tx, idx, flags) tuple judged by refscript and by script.VerifyTxScript (boolean verdicts compared, panics/fatal errors are violations); distinct_nontrivial = distinct (template, mutation, flags) triples",
 		"evaluations", "triples", minTriples)
 }
